@@ -362,6 +362,8 @@ def apply_deco(pid, objs, d, k):
         if d[2] is not None:
             o["e"] = d[2]
         objs.append(o)
+    elif kind == "cdir":
+        objs.append({"k": "cdir", "s": d[1], "fam": d[2], "text": d[3]})
     elif kind == "bferm":
         objs.append({"k": "fermata", "s": d[1], "ref": d[2], "bar": True})
     else:
@@ -429,6 +431,50 @@ def gen_C_slurpairs():
         yield {"sp": "C4", "m": [[0, 4]], "ev": ev, "deco": [b, a]}  # attached in the other order
     for a, b, c in combinations(sl, 3):
         yield {"sp": "C4", "m": [[0, 4]], "ev": ev, "deco": [a, b, c]}
+
+
+# constant directions of the three families that end where the next one of their own family starts
+CDIR_FAMILIES = ("loud", "tempo", "artic")
+# texts by occurrence number inside the family: successive directions of a family always differ; "p"/"f" are
+# written as <dynamics>, "dolce" and the tempo/articulation words as <words>
+CDIR_TEXTS = {"loud": ("p", "dolce", "f"), "tempo": ("adagio", "allegro"), "artic": ("legato", "staccato")}
+CDIR_CORES = [
+    [["n", 0, 1, 1, 1], ["n", 1, 2, 1, 1], ["n", 2, 3, 1, 1], ["n", 3, 4, 1, 1]],  # an onset at every grid time
+    [["n", 0, 2, 1, 1], ["n", 3, 4, 1, 1]],  # grid times inside a note and at a barline where nothing starts
+]
+CDIR_ORDERS = [(0, 1, 2), (2, 1, 0), (0, 2, 1), (1, 0, 2), (1, 2, 0), (2, 0, 1)]
+
+
+def gen_C_cdirs(extended):
+    """sequences of constant directions over two 1/4 measures (grid times 0..3): at every grid time any
+    subset of the families {loudness, tempo, articulation} gets a new direction (all 8^4 - 1 non-empty
+    assignments, so every family changes alone, together with one or with both others, at its first and at
+    later occurrences); directions that start together are attached in the family order given by a
+    permutation of the three families.
+    extended=False: the core with an onset at every grid time, family orders (l,t,a) and (a,t,l);
+    extended=True: everything else = the other four family orders on that core and all six on the second
+    core (assignments on which an order does not differ from an earlier one are not repeated)."""
+    meas = [[0, 2], [2, 4]]
+    subsets = [tuple(f for f, b in zip(CDIR_FAMILIES, bits) if b) for bits in product((0, 1), repeat=3)]
+    for ci, ev in enumerate(CDIR_CORES):
+        for assign in product(subsets, repeat=4):
+            if not any(assign):
+                continue
+            seen = []
+            for oi, order in enumerate(CDIR_ORDERS):
+                count = {f: 0 for f in CDIR_FAMILIES}
+                deco = []
+                for t, fams in enumerate(assign):
+                    for f in sorted(fams, key=lambda f: order.index(CDIR_FAMILIES.index(f))):
+                        texts = CDIR_TEXTS[f]
+                        deco.append(["cdir", t, f, texts[count[f] % len(texts)]])
+                        count[f] += 1
+                if deco in seen:
+                    continue
+                seen.append(deco)
+                if (ci == 0 and oi < 2) != (not extended):
+                    continue
+                yield {"sp": "C5", "m": meas, "ts": [[0, 1, 4]], "ev": ev, "deco": deco}
 
 
 # ---------------------------------------------------------------------------------------------
